@@ -6,6 +6,7 @@ produced (`w=1|2`) the writer model is run on the parsed value and compared with
 -/
 import Flussab.Model.Aiger
 import Driver.EngCnf
+import Flussab.Model.AigerRun
 
 namespace Driver
 open Flussab Flussab.Aiger
@@ -200,6 +201,35 @@ def writerCheck (bin : Bool) (l : LitTy) (w : String) (data : VBytes) : String :
       if bs == data then "" else "|W:mismatch"
     | _ => "|W:unparsed"
 
+/-- Rendering of the items of `Model/AigerRun.lean` (the model-level twin of `driveStream` /
+`driveParse` above, about which the C04 prefix theorems are stated). -/
+def showItem : Item → String
+  | .header h => showHeader h
+  | .input c => s!"I:{c}"
+  | .latch l => s!"L:{l.state}:{l.next}:{showInit l.init}"
+  | .olatch l => s!"L:{l.next}:{showInit l.init}"
+  | .output c => s!"O:{c}"
+  | .bad c => s!"B:{c}"
+  | .constraint c => s!"C:{c}"
+  | .justiceSize n => s!"JS:{n}"
+  | .justiceLit c => s!"J:{c}"
+  | .fairness c => s!"F:{c}"
+  | .gate g => s!"A:{g.out}:{g.in0}:{g.in1}"
+  | .ogate g => s!"A:{g.in0}:{g.in1}"
+  | .symbol s => showSymbol s
+  | .comment c => showComment c
+  | .parsed => "P"
+
+/-- Tie of `Model/AigerRun.lean` to this driver (and through it to the implementation): on every
+case without line annotations and of moderate size the twin must hand out the same items and end
+the same way; otherwise the observation is marked and the correspondence breaks. -/
+def runTwinCheck (bin : Bool) (l : LitTy) (mode : String) (data : VBytes) (fault : Bool)
+    (items : List String) (fin : String) : String :=
+  let r := if mode == "parse" then runParse bin l (LR.init data fault)
+           else runStream bin l (mode == "stream") (LR.init data fault)
+  let fin' := match r.final with | none => "END" | some e => showPErr e
+  if r.items.map showItem == items && fin' == fin then "" else "|RUNTWIN:mismatch"
+
 end AigerEng
 
 open AigerEng in
@@ -229,7 +259,8 @@ def runAigerCase (line : String) : String × String :=
   let nsyms := (items.filter (·.startsWith "S:")).length
   let ngates := (items.filter (·.startsWith "A:")).length
   let cmt := items.any (fun s => s.startsWith "K:" && !s.startsWith "K:none")
-  (digest items fin ++ wchk,
-   s!"fmt={fmtS} ty={field fs "ty"} mode={mode} items={items.length} gates={ngates} syms={nsyms} cmt={b2s cmt} fin={fin.take 5} fault={b2s fault} ls={b2s ls} w={field fs "w"}")
+  let twin := if !ls && data.length ≤ 65536 then runTwinCheck bin l mode data fault items fin else ""
+  (digest items fin ++ wchk ++ twin,
+   s!"twin={b2s (!ls && data.length ≤ 65536)} fmt={fmtS} ty={field fs "ty"} mode={mode} items={items.length} gates={ngates} syms={nsyms} cmt={b2s cmt} fin={fin.take 5} fault={b2s fault} ls={b2s ls} w={field fs "w"}")
 
 end Driver
